@@ -475,6 +475,11 @@ func dedupKeys(w *World, fn *ssa.Function, depth int, seen map[*ssa.Function]boo
 					rel = true
 				}
 			}
+			if res := g.Signature.Results(); !rel && res.Len() == 1 && roleOf(g) == "" && g.Pkg == w.Parser {
+				if _, isSlice := res.At(0).Type().Underlying().(*types.Slice); isSlice && readsPairFields(g, 0, map[*ssa.Function]bool{}) {
+					rel = true // e.g. a helper returning the unique packet names of a match field
+				}
+			}
 			if rel {
 				for k := range dedupKeys(w, g, depth+1, seen) {
 					out[k] = true
@@ -572,6 +577,34 @@ func pairUse(wc *wireCtx, s site) map[string]bool {
 		pf["Value"] = true
 	}
 	return pf
+}
+
+// readsPairFields: the function (or a repo function it calls) loads a field of a MatchPair.
+func readsPairFields(fn *ssa.Function, depth int, seen map[*ssa.Function]bool) bool {
+	if depth > 3 || seen[fn] || fn.Blocks == nil {
+		return false
+	}
+	seen[fn] = true
+	hit := false
+	forEachInstr(fn, func(_ *ssa.BasicBlock, ins ssa.Instruction) {
+		switch x := ins.(type) {
+		case *ssa.Field:
+			if tn, _, _, _ := fieldOf(x); tn == "MatchPair" {
+				hit = true
+			}
+		case *ssa.FieldAddr:
+			if tn, _, _, _ := fieldOf(x); tn == "MatchPair" {
+				hit = true
+			}
+		case ssa.CallInstruction:
+			if g := x.Common().StaticCallee(); g != nil && g.Pkg == fn.Pkg && !hit {
+				if readsPairFields(g, depth+1, seen) {
+					hit = true
+				}
+			}
+		}
+	})
+	return hit
 }
 
 func pairFieldOf(v ssa.Value) string {
